@@ -49,30 +49,41 @@ func historyNontrivial(h []Op) bool {
 	return (safe && unsafe) || special
 }
 
-// flaggedDirective: a SafeFormat method reached through a directive with flags, width and precision.
-const flaggedDirective = "%+8.3v"
+// flaggedDirectives: directives with flags, width and precision through which a SafeFormat method is reached,
+// with the directives under which fmt renders SafeInt/SafeUint and SafeFloat payloads in the known-finding model
+// (the printer passes 'd' resp. 'v' to its integer and float formatters; under the verb v the '+' and '#' flags
+// mean struct-field and Go-syntax mode and are not sign/alternate flags).
+var flaggedDirectives = []struct{ dir, intDir, floatDir string }{
+	{"%+8.3v", "%8.3d", "%8.3v"},
+	{"%#v", "%d", "%v"},
+	{"%#x", "%#d", "%#g"},
+	{"%-6.2q", "%-6.2d", "%-6.2g"},
+	{"%+d", "%+d", "%+g"},
+	{"%06v", "%06d", "%06v"},
+	{"% s", "% d", "% g"},
+}
 
-func runOnSafeFormatFlagged(h []Op) (out string, pan interface{}) {
+func runOnSafeFormatFlagged(dir string, h []Op) (out string, pan interface{}) {
 	defer func() { pan = recover() }()
-	return string(redact.Sprintf(flaggedDirective, histFormatter{h})), nil
+	return string(redact.Sprintf(dir, histFormatter{h})), nil
 }
 
 // modelHistoryNumericFlags: the reference model with the one deviation recorded as
 // a known finding: the printer's SafeInt/SafeUint/SafeFloat render the number under
 // the flags, width and precision of the directive through which SafeFormat was reached.
-func modelHistoryNumericFlags(h []Op) string {
+func modelHistoryNumericFlags(k int, h []Op) string {
+	fd := flaggedDirectives[k]
 	var b strings.Builder
 	for _, o := range h {
 		switch o.M {
 		case "SafeInt":
-			// under %+v the '+' is the struct-field mode, not a sign flag: width and precision remain
-			b.WriteString(fmt.Sprintf("%8.3d", o.I))
+			b.WriteString(fmt.Sprintf(fd.intDir, o.I))
 			continue
 		case "SafeUint":
-			b.WriteString(fmt.Sprintf("%8.3d", uint64(o.I)))
+			b.WriteString(fmt.Sprintf(fd.intDir, uint64(o.I)))
 			continue
 		case "SafeFloat":
-			b.WriteString(fmt.Sprintf("%8.3v", o.F))
+			b.WriteString(fmt.Sprintf(fd.floatDir, o.F))
 			continue
 		}
 		for _, p := range modelPieces(o) {
@@ -98,15 +109,20 @@ func c09check(w *Worker, h []Op) {
 	}
 	cs := func() interface{} { return map[string]interface{}{"history": historyString(h), "ops": h} }
 	// The same script reached through a directive with flags (valid histories only).
-	if valid {
-		out, pan := runOnSafeFormatFlagged(h)
+	for k := range flaggedDirectives {
+		// the first directive always; every directive for single calls; one more chosen by the history otherwise
+		if !valid || !(k == 0 || len(h) == 1 || int(hashStr(historyString(h))%uint64(len(flaggedDirectives))) == k) {
+			continue
+		}
+		flaggedDirective := flaggedDirectives[k].dir
+		out, pan := runOnSafeFormatFlagged(flaggedDirective, h)
 		w.Eval(1)
 		if pan != nil {
 			w.Violate("C09 panic SafeFormat(flagged)", "Sprintf("+flaggedDirective+", script) panicked: "+sprint(pan)+" history="+historyString(h), cs())
 		} else if p := parse(out); !p.WellFormed || !p.LineSafe {
 			w.Violate("C09 ill-formed SafeFormat(flagged)", "Sprintf("+flaggedDirective+", script) output "+q(out)+" history="+historyString(h), cs())
 		} else if got := canonP(p); got != model {
-			if got == modelHistoryNumericFlags(h) {
+			if got == modelHistoryNumericFlags(k, h) {
 				w.Violate("C09 numeric safe emitters honour the directive's flags", "Sprintf("+flaggedDirective+", script): "+q(out)+" history="+historyString(h), cs())
 			} else {
 				w.Violate("C09 model SafeFormat(flagged)", "Sprintf("+flaggedDirective+", script) gives "+q(out)+" canonical "+q(got)+" want "+q(model)+" history="+historyString(h), cs())
